@@ -19,13 +19,15 @@ func NewAttrlessConditionPlanner() shared.SQLRequestPlanner {
 
 func (a *AttrlessConditionPlanner) Process(ctx *shared.PlannerContext) (sql.ISelect, error) {
 	tracesTable := ctx.TracesTable
+	// the candidate traces are picked in the same window [From, To) the spans are read with below, and ranked by
+	// their newest span in it (DISTINCT + ORDER BY timestamp_ns ranked each trace by an arbitrary one of its rows)
 	traceIds := sql.NewSelect().Select(sql.NewSimpleCol("trace_id", "trace_id")).
-		Distinct(true).
 		From(sql.NewSimpleCol(tracesTable, "traces")).
 		AndWhere(sql.And(
 			sql.Ge(sql.NewRawObject("timestamp_ns"), sql.NewIntVal(ctx.From.UnixNano())),
-			sql.Le(sql.NewRawObject("timestamp_ns"), sql.NewIntVal(ctx.To.UnixNano())),
-		)).OrderBy(sql.NewOrderBy(sql.NewRawObject("timestamp_ns"), sql.ORDER_BY_DIRECTION_DESC)).
+			sql.Lt(sql.NewRawObject("timestamp_ns"), sql.NewIntVal(ctx.To.UnixNano())),
+		)).GroupBy(sql.NewRawObject("trace_id")).
+		OrderBy(sql.NewOrderBy(sql.NewRawObject("max(timestamp_ns)"), sql.ORDER_BY_DIRECTION_DESC)).
 		Limit(sql.NewIntVal(ctx.Limit))
 	withTraceIds := sql.NewWith(traceIds, "trace_ids")
 	traceAndSpanIds := sql.NewSelect().
